@@ -13,6 +13,7 @@ EVID = os.path.join(ROOT, "evidence")
 REPLAY = os.path.join(EVID, "replay")
 KDB_RUN = os.path.join(TARGET, "debug", "kdb-run")
 MODEL_RUN = os.path.join(BUILD, "ocaml", "model_run")
+DATABROKER_BIN = os.path.join(TARGET, "debug", "databroker")
 NPROC = os.cpu_count() or 4
 
 ENV = dict(os.environ)
@@ -250,6 +251,12 @@ def build_harness():
         shutil.copy("/repo/Cargo.lock", lock)
         rc, out = sh("cargo build --offline 2>&1", cwd=HARNESS, timeout=3000)
     return rc, out
+
+
+def build_databroker_bin():
+    """the real `databroker` binary from /repo's working tree (used by C17: main.rs read_metadata_file), built into
+    the same target directory; nothing is written under /repo"""
+    return sh("cargo build --offline --bin databroker --target-dir %s 2>&1" % TARGET, cwd="/repo", timeout=3000)
 
 
 # ---------------------------------------------------------------- case files
